@@ -94,6 +94,7 @@ def run(ck):
     else:
         ck.mc('AddrTheorems', 'MC_Addr_quick.cfg', timeout=1200, coverage=False)
     isa_common.family_check(ck, FAMILY, ck.pick(8, 16), 'c10', rounds=ck.pick(1, 4))
+    isa_common.sweep_all(ck, 'c10', seedoff=1000)
     ck.assumptions += isa_common.ISA_ASSUMPTIONS + [
         'the cyclic-walk theorem is stated for start addresses inside the buffer (offset <= mod), as the property does']
 
